@@ -15,9 +15,9 @@ def minTime : F32 := ofBits Gen.minTimeBits
 def maxTime : F32 := ofBits Gen.maxTimeBits
 
 /-- `TimePeriod::from(f32)` : `p.max(MIN).min(MAX)` -/
-def timePeriod (p : F32) : F32 := F32.min (F32.max p minTime) maxTime
+def timePeriod (p : F32) : F32 := F32.fmin (F32.fmax p minTime) maxTime
 /-- `SustainLevel::from(f32)` : `v.max(0.0).min(1.0)` -/
-def sustainLevel (v : F32) : F32 := F32.min (F32.max v zero) one
+def sustainLevel (v : F32) : F32 := F32.fmin (F32.fmax v zero) one
 
 def attackAt (i : Nat) : F32 := ofBits (Gen.attackBits.getD i 0)
 def decayAt (i : Nat) : F32 := ofBits (Gen.decayBits.getD i 0)
